@@ -1,6 +1,6 @@
 (* C11 — board lookup and board listings.
    Executable model of cache/cache_board.go (GetBid, getBidByNameCore / getBidByClassCore, FindBoardIdxByName /
-   FindBoardIdxByClass, FindBoardAutoCompleteStartIdx) and of the by-name listing walk that
+   FindBoardIdxByClass, FindBoardAutoCompleteStartIdx) and of the by-name and by-class listing walks that
    ptt.LoadGeneralBoards / bbs.LoadGeneralBoards compose from them. The search skeleton is Base/OddSearch.v.
 
    A table is given in the order of its sorted index (BSorted[by name] or BSorted[by class]): Go's sort.Sort is
@@ -125,6 +125,32 @@ Fixpoint walk (fuel : nat) (names : list (list Z)) (k : nat) (asc : bool) (start
 Definition page_walk (names : list (list Z)) (k : nat) (asc : bool) : res (Z * list Z) :=
   walk (S (S (S (2 * length names)))) names k asc (if asc then 1 else 0) 0 [].
 
+(* ---- the by-class listing walk (bsortBy = BSORT_BY_CLASS): the same page loop over BSorted[by class]; the
+   next-cursor of bbs.NewBoardSummaryFromRaw is (BoardClass = CstrToBytes(Title[:4]), Brdname), serialised as
+   base64(class)@name, deserialised and resolved by cache.FindBoardIdxByClass. [titles]/[names] are in by-class order.
+   A cursor that resolves to no entry (-1) costs one more, empty page (bbs.LoadGeneralBoards returns nil, "", nil). ---- *)
+Definition cursor_class (t5 : list Z) : list Z := cprefix (firstn 4 t5).
+
+Fixpoint walk_class (fuel : nat) (titles names : list (list Z)) (k : nat) (asc : bool) (start pages : Z) (acc : list Z)
+  : res (Z * list Z) :=
+  match fuel with
+  | O => Hang
+  | S f =>
+      let '(items, next) := load_page names start k asc in
+      let acc' := acc ++ map (fun i => i + 1) items in
+      match next with
+      | None => Ok (pages + 1, acc')
+      | Some i =>
+          match find_by_class titles names (cursor_class (nth (Z.to_nat i) titles [])) (nth (Z.to_nat i) names []) asc with
+          | Ok s => if s <? 0 then Ok (pages + 2, acc') else walk_class f titles names k asc s (pages + 1) acc'
+          | Crash => Crash
+          | Hang => Hang
+          end
+      end
+  end.
+Definition page_walk_class (titles names : list (list Z)) (k : nat) (asc : bool) : res (Z * list Z) :=
+  walk_class (S (S (S (2 * length names)))) titles names k asc (if asc then 1 else 0) 0 [].
+
 (* ---- wire ---- *)
 (* a group of NUL-terminated strings *)
 Fixpoint split0 (l cur : list Z) : list (list Z) :=
@@ -139,7 +165,8 @@ Fixpoint chunk5 (l : list Z) : list (list Z) :=
   end.
 
 (* op 1 GetBid [names][bids][q]; 2 FindBoardIdxByName [names][q][asc]; 3 FindBoardIdxByClass [titles5][names][cls][q][asc];
-   4 FindBoardAutoCompleteStartIdx [names][kw][asc]; 5 listing walk by name [names][k asc] *)
+   4 FindBoardAutoCompleteStartIdx [names][kw][asc]; 5 listing walk by name [names][k asc];
+   7 listing walk by class [titles5][names][k asc] (both in by-class order) *)
 Definition run_case (args : list (list Z)) : list Z :=
   match args with
   | [[1]; names; bids; q] => wire (fun b => [b]) (get_bid (split0 names []) bids q)
@@ -148,6 +175,8 @@ Definition run_case (args : list (list Z)) : list Z :=
       wire (fun i => [i]) (find_by_class (chunk5 titles) (split0 names []) cls q (negb (asc =? 0)))
   | [[4]; names; kw; [asc]] => wire (fun i => [i]) (autocomplete (split0 names []) kw (negb (asc =? 0)))
   | [[5]; names; [k; asc]] => wire (fun r => fst r :: snd r) (page_walk (split0 names []) (Z.to_nat k) (negb (asc =? 0)))
+  | [[7]; titles; names; [k; asc]] =>
+      wire (fun r => fst r :: snd r) (page_walk_class (chunk5 titles) (split0 names []) (Z.to_nat k) (negb (asc =? 0)))
   | _ => [ST_BADCASE]
   end.
 
